@@ -380,6 +380,15 @@ impl<'p> Interp<'p> {
                 h.push(xv);
                 V::Num(y)
             }
+            E::MatchNum(sc, arms, d) => {
+                // the scrutinee is cast to an integer by truncation towards zero (saturating, NaN -> 0)
+                let x = self.num(sc, env, st, sty)?;
+                let k = x as i64;
+                match arms.iter().find(|(a, _)| *a == k) {
+                    Some((_, e)) => self.eval(e, env, st, sty)?,
+                    None => self.eval(d, env, st, sty)?,
+                }
+            }
             E::Now => V::Num(self.now),
             E::SampleRate => V::Num(48000.0),
             E::Raw(_) => return Err(Unsupported("raw text".into())),
